@@ -33,11 +33,28 @@ CHECKS.update({
               "cell families, comparing every reader at every settled state. Hardware races (enable dropped while data changed) are detected "
               "by the abstract machine, not judged and counted."),
         design="DESIGN 7 C03, 6.1", technique="TLC model checking of Circuit(BP) x abstract memory machine over all input histories"),
+    "C04": dict(
+        text=("For every program of GenSelf (m.write(f(m.read())), f a chain of 1..4 steps; optimised and unoptimised builds, so both the "
+              "arithmetic-feedback and the two-gate implementation) and every constant valuation, TLC runs the circuit 52 ticks from the "
+              "all-zero state and checks EXISTS L in 1..6 FORALL t >= W: value(t+L) = f(value(t)) with f evaluated by the Facto interpreter, "
+              "on the direct reader and (as a delayed function of the cell) on every other reader."),
+        design="DESIGN 7 C04", technique="TLC per-tick relation on linear behaviours of Circuit(BP) with a history variable"),
     "C05": dict(
         text=("As C03 with the abstract SR/RS latch (priority = the argument named first): all input histories for both argument orders x "
               "value kinds x set/reset as boolean signals, comparisons on two inputs, and comparisons on one input with disjoint / touching / "
               "overlapping thresholds (inlined and non-inlined latch implementations both arise)."),
         design="DESIGN 7 C05", technique="TLC model checking of Circuit(BP) x abstract latch over all input histories"),
+    "C06": dict(
+        text=("For every program of GenEntity (5 controllable prototypes x 15 enable forms, shared sources, contents read through .output "
+              "incl. inlined any/all, selections and merges of two chests), optimised and unoptimised, and every valuation of inputs and "
+              "chest contents, TLC evaluates the placed entity's circuit condition on the network actually wired to it and compares it with "
+              "(expr > 0); values derived from .output are compared as in C01/C02 (so a contribution counted twice is a failure)."),
+        design="DESIGN 7 C06", technique="TLC refinement of entity circuit conditions with environment emitters"),
+    "C09": dict(
+        text=("TLC compares the bag of non-compiler-made entities of the blueprint with the interpreter's list of executed place() "
+              "statements (loops iterate, calls substitute, int arithmetic is Int32): prototype, top-left tile, static properties; nothing "
+              "extra, nothing missing; with and without power poles."),
+        design="DESIGN 7 C09", technique="TLC evaluation of bag equality between blueprint entities and the specification's elaboration"),
     "C10": dict(
         text=("Every program of the scalar and bundle cores is compiled with and without optimisation; TLC runs the two emitted circuits in "
               "lock-step from every boundary valuation and requires equal observations on every exported result (Refine2); an output only one "
